@@ -12,13 +12,13 @@ Definition res_ok (r : res) : bool := match r with ROk => true | _ => false end.
 Definition single_data_op (o : op) : bool :=
   match o with
   | OPut _ _ _ _ _ | OGet _ _ _ _ | OUpdate _ _ _ _ _ _ _ | ODelete _ _ _ _ _ _
-  | OQuery _ _ _ _ _ _ _ _ _ | OScan _ _ _ _ _ _ _ | OBatchGet _ _ | OTransact => true
+  | OQuery _ _ _ _ _ _ _ _ _ _ | OScan _ _ _ _ _ _ _ _ | OBatchGet _ _ | OTransact => true
   | _ => false
   end.
 
 Definition read_op (o : op) : bool :=
   match o with
-  | OGet _ _ _ _ | OQuery _ _ _ _ _ _ _ _ _ | OScan _ _ _ _ _ _ _ | OBatchGet _ _ | OTransact | ODescribeTable _ => true
+  | OGet _ _ _ _ | OQuery _ _ _ _ _ _ _ _ _ _ | OScan _ _ _ _ _ _ _ _ | OBatchGet _ _ | OTransact | ODescribeTable _ => true
   | _ => false
   end.
 
@@ -156,7 +156,7 @@ Theorem table_frame c o tn n :
   CInv (fun _ => True) c ->
   (match o with
    | OPut t _ _ _ _ | OUpdate t _ _ _ _ _ _ | ODelete t _ _ _ _ _ | OClearTable t | ODeleteTable t
-   | OUpdateTable t _ _ _ | OAddIndex t _ _ _ | OGet t _ _ _ | OQuery t _ _ _ _ _ _ _ _ | OScan t _ _ _ _ _ _ | ODescribeTable t => t = tn
+   | OUpdateTable t _ _ _ | OAddIndex t _ _ _ | OGet t _ _ _ | OQuery t _ _ _ _ _ _ _ _ _ | OScan t _ _ _ _ _ _ _ | ODescribeTable t => t = tn
    | _ => False
    end) ->
   n <> tn -> lookup n (c_tables (fst (step c o))) = lookup n (c_tables c).
